@@ -25,6 +25,8 @@
 #include <unistd.h>
 
 #include <atomic>
+#include <map>
+#include <mutex>
 #include <stdexcept>
 #include <thread>
 
@@ -44,6 +46,24 @@ static void ev(const char* e, int id, int src) {
   j.endObj();
   g_tr->line(j.s);
   g_events.fetch_add(1);
+}
+
+// The library's own small-buffer blocks (guarded MemAlloc / MemFree hooks of allocSmallBuffer<size> /
+// deallocSmallBuffer<size>): {"e":"Alloc"|"Free","id":block,"src":size class}.  The Alloc note fires after
+// the block was obtained and the Free note before it is returned, so for one address the logged order is
+// the real order.
+static std::mutex g_blkMu;
+static std::map<const void*, int> g_blkIds;
+static void memSink(const char* site, const void* obj, long long size, long long) {
+  int id;
+  {
+    std::lock_guard<std::mutex> l(g_blkMu);
+    auto it = g_blkIds.find(obj);
+    if (it == g_blkIds.end())
+      it = g_blkIds.emplace(obj, (int)g_blkIds.size() + 1).first;
+    id = it->second;
+  }
+  ev(site[3] == 'A' ? "Alloc" : "Free", id, (int)size);
 }
 
 // Lifetime-tracked payload.  The id lives in the object; a use / destruction of freed or never
@@ -379,6 +399,51 @@ static void p_loops(uint64_t seed) {
   quiesce();
 }
 
+// parallel loops on their error paths: a body that throws (the task set records it, cancels the rest and
+// rethrows from wait()), and a task set that is cancelled while loop tasks are still queued.  Every
+// chunking mode, waiting and not waiting.
+static void p_loops_error(uint64_t seed) {
+  for (int variant = 0; variant < 8; ++variant) {
+    {
+      dispenso::ThreadPool pool(3);
+      dispenso::TaskSet ts(pool);
+      dispenso::ParForOptions o;
+      o.wait = (variant & 1) != 0;
+      o.defaultChunking = (variant & 2) ? dispenso::ParForChunking::kAdaptive : dispenso::ParForChunking::kStatic;
+      bool cancel = (variant & 4) != 0;
+      int bad = (int)((seed + (uint64_t)variant * 5) % 97);
+      LT cap(variant);
+      std::vector<LT> states;
+      try {
+        dispenso::parallel_for(
+            ts,
+            states,
+            []() { return LT(0); },
+            0,
+            200,
+            [cap, bad, cancel, &ts](LT& st, int a, int b) {
+              (void)cap.use();
+              (void)st.use();
+              if (a <= bad && bad < b) {
+                if (cancel)
+                  ts.cancel();
+                else
+                  throw Boom();
+              }
+            },
+            o);
+        ts.wait();
+      } catch (const Boom&) {
+      }
+      try {
+        ts.wait();
+      } catch (const Boom&) {
+      }
+    }
+    quiesce();
+  }
+}
+
 static void p_graph(uint64_t) {
   {
     dispenso::ThreadPool pool(2);
@@ -473,6 +538,7 @@ int main(int argc, char** argv) {
   drv::Args a(argc, argv);
   ctl::Trace tr(a.str("out", "lifetime.ndjson"));
   g_tr = &tr;
+  ctl::setMemSink(memSink);
   uint64_t seed = (uint64_t)a.num("seed", 1);
   int rounds = (int)a.num("rounds", 2);
   std::string only = a.str("only", "");
@@ -489,6 +555,7 @@ int main(int argc, char** argv) {
       {"cvector", p_cvector},
       {"small_containers", p_small_containers},
       {"loops", p_loops},
+      {"loops_error", p_loops_error},
       {"graph", p_graph},
       {"misc", p_misc},
       {"timed", p_timed},
